@@ -282,7 +282,9 @@ func prettyPrintCompact(ps *PrintState, s Node, i int) bool {
 // Normal/long form print: Decide if using new line or space as separator.
 func prettyPrintLongForm(ps *PrintState, s Node, i int) {
 	if i > 0 || ps.IndentLevel > 1 {
-		if keepSameLineAsPrevious(s) || !needNewLineAfter(ps.prev) {
+		prevComment, _ := ps.prev.(*Comment)
+		afterLineComment := prevComment != nil && prevComment.Type() == token.LINECOMMENT // always ends its line.
+		if !afterLineComment && (keepSameLineAsPrevious(s) || !needNewLineAfter(ps.prev)) {
 			log.Debugf("=> PrettyPrint adding just a space")
 			_, _ = ps.Out.Write([]byte{' '})
 			ps.IndentationDone = true
